@@ -483,14 +483,10 @@ func (i *Interpreter) ProcessErrorStatement(stmt *ast.ErrorStatement) error {
 }
 
 func (i *Interpreter) ProcessEsiStatement(stmt *ast.EsiStatement) error {
-	// Fastly document says the esi will be triggered when esi statement is executed in FETCH directive.
+	// Fastly document says the esi statement is available in all subroutines
+	// but ESI will be triggered only when esi statement is executed in FETCH directive.
 	// see: https://developer.fastly.com/reference/vcl/statements/esi/
-	if !i.ctx.Scope.Is(context.FetchScope) {
-		return exception.Runtime(
-			&stmt.GetMeta().Token,
-			"esi statement found but it could only be enable on FETCH directive",
-		)
-	} else {
+	if i.ctx.Scope.Is(context.FetchScope) {
 		i.ctx.TriggerESI = true
 	}
 	return nil
